@@ -2471,15 +2471,7 @@ class Recipe:
                         amount_strings.append(f"{amount} {unit} to [{', '.join(addresses)}]")
                     step.instructions += ', '.join(amount_strings) + "."
 
-                if isinstance(dest, PlateSlicer):
-                    dest = deepcopy(dest)
-                    dest.plate = self.results[dest_name]
-                else:
-                    dest = self.results[dest_name]
-
-                self.results[dest_name] = dest.fill_to(solvent, quantity)
                 step.substances_used.add(solvent)
-                step.to.append(self.results[dest_name])
 
         if len(self.used) != len(self.results):
             raise ValueError("Something declared as used wasn't used.")
